@@ -16,28 +16,28 @@ P = {
          "All layouts over a small universe x all (op, address, length) at depth 1 and all depth-2/3 histories over a reduced alphabet, on anonymous, file-backed and Xen-UNIX regions and a trait-default mock (unordered storage), short streams that also report Interrupted; after each step every byte of every region is compared with the model.",
          "Universe of 6..7 one-byte cells; object types up to 16 bytes; ample in-memory streams (short streams belong to C14).", "2/C03"),
  "C04": ("model_checking", "E1-bfs", "explicit-state exploration of operation histories on one container against a Vec<u8> model, depth-1 full alphabet and depth-2 route pairs",
-         "All accessors x all (offset, length, type) on containers of 0..24 bytes at every misalignment, every (src mod 8, dst mod 8, len<=9) class of the small-copy routine, depth-2 product of write route x read route, depth-3 on a reduced alphabet and write / nearly identical rewrite / read histories; container (frame included) compared byte for byte after every operation.",
+         "All accessors x all (offset, length, type) on containers of 0..24 bytes at every misalignment, every (src mod 8, dst mod 8, len<=9) class of the small-copy routine, depth-2 product of write route x read route, depth-3 on a reduced alphabet and write / nearly identical rewrite / read histories; single transfers of 2^24+1 bytes on a 16 MiB region; container (frame included) compared byte for byte after every operation.",
          "Containers <= 24 bytes plus MmapRegion of 24/4099 bytes; stream forms starting exactly at the end accept Ok(0) or Err.", "2/C04"),
  "C05": ("model_checking", "E1-bfs", "explicit-state exploration of derivation chains x write operations x page sizes x bitmap flavours x reset histories with a diff-driven dirtiness oracle",
-         "Every write path through every derivation chain of up to 2..3 links, page sizes from 1 byte to larger than the container, plain/Arc/optional/sliced bitmaps, histories interleaved with resets; oracle: every byte that changed is dirty in the owning region's bitmap at its own offset; all interleavings of one tracked write (20 paths, incl. reads from a real descriptor with read(2) as a scheduling point) with a fetch-and-clear consumer.",
+         "Every write path through every derivation chain of up to 2..3 links, page sizes from 1 byte to larger than the container, plain/Arc/optional/sliced bitmaps (made at size or grown by enlarge), histories interleaved with resets; oracle: every byte that changed is dirty in the owning region's bitmap at its own offset; all interleavings of one tracked write (20 paths, incl. reads from a real descriptor with read(2) as a scheduling point) with a fetch-and-clear consumer.",
          "Containers of 16..24 bytes; chain depth <= 3; raw-pointer writes exempt as documented.", "2/C05"),
  "C06": ("model_checking", "E3-sched + trace enumeration", "trace enumeration of the primitive accesses of every (len, src mod 8, dst mod 8) class per entry point, and controlled-scheduler enumeration of all writer/reader interleavings at primitive-access granularity",
-         "Hook H1 records width and address of every primitive volatile access issued by the byte-copy helper; for all 576 classes x entry points the access sequence is checked (single access of the full width when aligned); the same rule with the guest bytes or the local buffer at host addresses with exactly 4..46 trailing zero bits and at every aligned position of a 4 KiB page, also through slices that start off the word grid, and through guest memory whose regions start off the word grid; all interleavings of a flipping writer and a reader are enumerated and the reader must see old or new. Ordering clause: src/atomic_integer.rs compiled with loom atomics, message-passing litmus for six integer types x four ordering pairs (acquire/release strength).",
+         "Hook H1 records width and address of every primitive volatile access issued by the byte-copy helper; for all 576 classes x entry points the access sequence is checked (single access of the full width when aligned); the same rule with the guest bytes or the local buffer at host addresses with exactly 4..46 trailing zero bits and at every aligned position of a 4 KiB page, also through slices that start off the word grid, and through guest memory whose regions start off the word grid; Cursor sinks at every position; all interleavings of a flipping writer and a reader are enumerated and the reader must see old or new. Ordering clause: src/atomic_integer.rs compiled with loom atomics, message-passing litmus for six integer types x four ordering pairs (acquire/release strength).",
          "One naturally aligned volatile access of <= 8 bytes is a single machine access (LLVM volatile semantics + x86-64 single-copy atomicity); SC interleavings; a SeqCst access carried out as acquire/release is not detectable by the engines present (DESIGN.md section 5).", "2/C06"),
  "C07": ("exploration", "exhaustive-inputs", "exhaustive enumeration of an extreme-value alphabet over every public entry point, two build profiles, every call under catch_unwind + fault handler + hang watchdog",
          "Every access/query entry point of slices, regions, guest memory, bitmaps and stream helpers x boundary and extreme addresses/lengths/counts x layouts at the bottom and top of the address space; each call under catch_unwind plus a SIGABRT/SIGSEGV/SIGFPE handler that attributes the fault to the call, with a watchdog for calls that do not return, in the overflow-checked and in the release profile.",
          "Alphabet of boundary/extreme values, not all 2^64; program-controlled arguments (types, enlarge amounts, non-power-of-two alignments, array indices) excluded as documented.", "2/C07"),
  "C08": ("model_checking", "E3-sched", "stateless DFS over all interleavings of real threads under a controlled scheduler (hooked atomics, multinomial self-check), plus loom exploration of the same bitmap code under the C11 memory model",
-         "All interleavings (unbounded for the small harnesses, preemption-bounded where stated) of 2..3 real threads marking, resetting, harvesting and cloning one AtomicBitmap whose pages share a word or straddle two words (page sizes 1..4096 bytes, tracked ranges ending in a partial page, marks and resets running past the end, slice marks on page sizes that are not a power of two); every schedule is an execution of the real code; per-page conservation oracle plus a real-time-order oracle from recorded call/return events (a mark must be visible at the end or accounted for by a harvest/reset that returned after the mark was called). A second engine, loom, enumerates every C11-consistent execution (interleavings and weak-memory reorderings) of smaller harnesses on the bitmap source compiled from the tree with loom's atomics.",
+         "All interleavings (unbounded for the small harnesses, preemption-bounded where stated) of 2..3 real threads marking, resetting, harvesting and cloning one AtomicBitmap whose pages share a word or straddle two words (page sizes 1..4096 bytes, tracked ranges ending in a partial page, marks and resets running past the end, slice marks on page sizes that are not a power of two, pre-marked words with two interfering changes); harnesses explored smallest schedule space first; every schedule is an execution of the real code; per-page conservation oracle plus a real-time-order oracle from recorded call/return events (a mark must be visible at the end or accounted for by a harvest/reset that returned after the mark was called). A second engine, loom, enumerates every C11-consistent execution (interleavings and weak-memory reorderings) of smaller harnesses on the bitmap source compiled from the tree with loom's atomics.",
          "E3: SC interleavings of whole atomic operations, interception by type through hook H2. loom: its model of the C11 memory model; the bitmap source is copied from the tree with only the atomic import switched.", "2/C08"),
  "C09": ("model_checking", "E1-bfs", "explicit-state BFS to a fixpoint over all public bitmap operations on tiny bitmaps, BTreeSet page-set model; exhaustive ranges on word-boundary configurations",
-         "Closure over all operation sequences on bitmaps of <= 6 pages (state = complete concrete bitmap state), plus every (start,len) from boundary alphabets on 63..129-page and non-power-of-two configurations; model comparison of every observable after every step; all histories of 3..4 operations over a reduced alphabet without merging states.",
+         "Closure over all operation sequences on bitmaps of <= 6 pages (state = complete concrete bitmap state), plus every (start,len) from boundary alphabets on 63..129-page and non-power-of-two configurations; model comparison of every observable after every step; all histories of 3..4 operations over a reduced alphabet without merging states; geometries within a page of usize::MAX.",
          "enlarge() bounded in total growth; page sizes {1,2,3} for the closure.", "2/C09"),
  "C10": ("model_checking", "E1-bfs", "explicit-state BFS to a fixpoint over insert/remove/build on real mmap regions, interval-list model, ancestors kept alive and re-checked",
          "From every reachable map: every insert interval of the universe, every region handle already held by the map or an ancestor, every (base,size) removal, every ordered build list of <= 3 intervals and lists with a repeated handle, the same lists through from_ranges / from_ranges_with_files with shared-file windows; all constructors, file-backed too, agree at the top of the address space; documented error classes; parent and all ancestor maps re-read after every transition.",
          "Universe of 6 (quick) or 11 (thorough) cells at three bases.", "2/C10"),
  "C11": ("model_checking", "E3-sched + E1-bfs", "controlled-scheduler enumeration of updater/reader interleavings at ArcSwap/Mutex-operation granularity, plus BFS over sequential handle histories",
-         "All interleavings within a preemption bound (stated) of updaters (lock, derive, replace) and readers (snapshot, read, clone, convert, drop); snapshot == exactly one published map (maps identified by start and region instance; updates insert, remove - down to the empty map - or swap a region for a fresh one of the same range; an updater may panic while holding the update lock, updates also run from destructors during unwinding), no lost replacement, monotonic visibility, memory still mapped; sequential histories to depth 6.",
+         "All interleavings within a preemption bound (stated) of updaters (lock, derive, replace) and readers (snapshot, read, clone, convert, drop); snapshot == exactly one published map (maps identified by start and region instance; updates insert, remove - down to the empty map - or swap a region for a fresh one of the same range; an updater may panic while holding the update lock, updates also run from destructors during unwinding, updates may be given up), no lost replacement, monotonic visibility, memory still mapped; sequential histories to depth 6.",
          "arc_swap internals execute for real but ArcSwap::load/store are treated as atomic steps; SC.", "2/C11"),
  "C12": ("model_checking", "E1-bfs + interposed mmap log + compile-fail grid", "explicit-state BFS over create/share/drop histories with link-time interposed mmap/munmap log; compile-fail grid for lifetimes",
          "All histories to depth 6 (quick) or 8 (thorough) over 3 region kinds and all drop orders; mapped iff an owner is alive, munmap exactly once with the mapped (addr,len), external mappings never unmapped; the mapping log replayed as an address-space model (no page mapped for a region may outlive its owners); size sweep 1 byte .. 1 GiB (thorough 4 GiB, incl. exact multiples of 1 GiB) x drop orders of five owners; creations that fail half-way under one mmap / lseek fault leave nothing mapped; builder sweep over protections x flag words x sizes x backing (mlock/madvise/mprotect interposed and failed one at a time); std and Xen builds. A generated grid of escaping-accessor programs must be rejected by rustc while each non-escaping twin compiles.",
@@ -46,19 +46,19 @@ P = {
          "Every adapter the crate provides x every stream length 0..20, cursor position incl. past-the-end and u64::MAX, buffer length 0..20 x sequences of up to 3 (thorough 4) calls, single transfers up to 2^21 (thorough 2^24) bytes, plain and exact forms; descriptor adapters also under short and EINTR-interrupted system calls, wrong access modes and datagram sockets; same count, bytes, remaining stream state and error kind as std.",
          "TcpStream/Stdout exercised only where the sandbox allows; stream state after a failed exact call not compared.", "2/C13"),
  "C14": ("fault_enumeration", "E2-choice-tree", "choice-tree DFS over all fault scripts (short/zero/EINTR*/error) of the underlying stream, scripted adapters and interposed read/write syscalls",
-         "Every script of per-call behaviours up to the length bound for three targets (slice, region, guest memory spanning two regions and a hole), all four transfer forms plus the trait-level exact forms; transfer model: EINTR retried (also 33, 64 and 1000 times in a row), errors surface, no byte lost or duplicated.",
+         "Every script of per-call behaviours up to the length bound for three targets (slice, region, guest memory spanning two regions and a hole), all four transfer forms plus the trait-level exact forms; transfer model: EINTR retried (also 33, 64 and 1000 times in a row), transfers of up to 3 MiB with short calls around 2^20, errors surface, no byte lost or duplicated.",
          "Scripts up to 5 calls, EINTR runs up to 3; counts {0,1,5,8,9,13}.", "2/C14"),
  "C15": ("fault_enumeration", "exhaustive-inputs + fault injection", "exhaustive enumeration of construction requests (sizes x file lengths x offsets x flag words incl. all Xen flag bytes) with injected mmap/ioctl failures, interposed mapping log",
-         "Acceptance predicate from the statement; attribute echo on success; nothing left mapped on failure (interposed log); sequences of file lengths through one FileOffset lineage; every length query answered with EIO / 0 / 2^40; shared file coherence byte by byte; file offsets around 2^31, 2^32, 2^33 in a sparse file; explicit flag and protection words echoed for every Xen mapping type; anonymous builder x hugetlbfs hint x sizes around 2 MiB multiples, refusals compared with the kernel's own answer; Xen: all 256 low flag bytes and every high bit, emulated devices, injected failures.",
+         "Acceptance predicate from the statement; attribute echo on success; nothing left mapped on failure (interposed log); sequences of file lengths through one FileOffset lineage; every length query answered with EIO / 0 / 2^40; shared file coherence byte by byte; file offsets around 2^31, 2^32, 2^33 in a sparse file; the descriptor's cursor left anywhere; explicit flag and protection words echoed for every Xen mapping type; anonymous builder x hugetlbfs hint x sizes around 2 MiB multiples, refusals compared with the kernel's own answer; Xen: all 256 low flag bytes and every high bit, emulated devices, injected failures.",
          "Emulated gntdev/privcmd; safe requests the OS refuses may fail.", "2/C15"),
  "C16": ("model_checking", "E1-bfs", "same exploration as C05 with the precision oracle (dirty set after == before U pages of written bytes)",
          "Same cases as C05; read-type operations, derivations, queries, rejected requests mark nothing; successful writes mark exactly the overlapping pages; reset / reset-range / fetch-and-clear clear exactly the named pages and report exactly what was dirty (also on bitmaps of two and three words); the failed-descriptor-read exception is encoded; descriptor reads through guest memory, the owning region and its slice.",
          "As C05.", "2/C05-C16"),
  "C17": ("model_checking", "exhaustive-inputs + histories on emulated grant device", "exhaustive enumeration of accessor kinds x types x counts (guards) and BFS over access histories on an emulated on-demand grant device (interposed ioctl/mmap)",
-         "Guard len/ptr for every accessor kind, T of 1..16 bytes, counts 0..9; on the emulated device every access operation at page-crossing offsets must run inside windows covering all touched bytes and leave no window behind, also when any one mmap call or map-grant request of the operation fails (deviation bound 1); transfers to and from real descriptors issue read(2)/write(2) only on buffers inside a window that is live at that moment; the operations also run through slices derived by every derivation the API offers.",
+         "Guard len/ptr for every accessor kind, T of 1..16 bytes, counts 0..9; on the emulated device every access operation at page-crossing offsets must run inside windows covering all touched bytes and leave no window behind, also when any one mmap call or map-grant request of the operation fails (deviation bound 1); transfers to and from real descriptors issue read(2)/write(2) only on buffers inside a window that is live at that moment; the operations also run through slices derived by every derivation the API offers; copies from ordinary memory into the region.",
          "gntdev emulated at the ioctl contract level.", "2/C17"),
  "C18": ("exploration", "exhaustive-inputs", "exhaustive enumeration of zero-length forms x layers x address classes x ZST types (std and Xen builds)",
-         "All zero-length forms at slice, region and guest-memory level at mapped/last/one-past/hole/0/u64::MAX addresses, empty containers, zero-sized element types; must be Ok, no panic, memory and bitmap unchanged, no device window requested; zero-count transfers with streams that report Interrupted first or refuse every call (exact forms).",
+         "All zero-length forms at slice, region and guest-memory level (maps of no, one, two and three regions) at mapped/last/one-past/hole/0/u64::MAX addresses, empty containers, zero-sized element types; must be Ok, no panic, memory and bitmap unchanged, no device window requested; zero-count transfers with streams that report Interrupted first or refuse every call (exact forms).",
          "Panics are caught per form; aborts and faults are attributed by the signal handler.", "2/C18"),
  "C19": ("exploration", "exhaustive-inputs", "exhaustive enumeration of all operand pairs at width 8 (macro re-instantiated from the tree) and boundary grids at width 64 against u128 arithmetic",
          "impl_address_ops! from the current tree instantiated at width 8 (all 2^16 pairs per operation) and 16 (thorough, all 2^32); GuestAddress/MemoryRegionAddress at width 64 on the +-4 grid around 0, 2^8.. 2^64 squared and all 64 alignments.",
